@@ -120,6 +120,24 @@ pub async fn maintain_pass(h: &mut Harness) {
                 h.violate("C14", "only_expired_closed_segments", "young_segment_deleted", format!("segment {}..={} of {sid}/{tid}/{p} deleted: newest message ts {newest_ts:?} + expiry {expiry} > now {now}", seg.start_offset, seg.current_offset));
             }
         }
+        // lower bound: a topic at or above its limit (so certainly "almost full"), deletion enabled, never
+        // expiring (so the expiry clean-up of the same pass cannot have made room first): the oldest segment of
+        // the partition, if closed, is removed by the pass - otherwise the limit is not enforced at all
+        let clearly_full = match topic.max_size {
+            Some(limit) => topic_sizes.get(&(sid, tid)).copied().unwrap_or(0) >= limit,
+            None => false,
+        };
+        if clearly_full && h.model.delete_oldest && expiry == 0 {
+            if let Some(first) = view_before.segments.first() {
+                if first.is_closed && first.size_bytes > 0 && view_before.segments.len() > 1 {
+                    if survivors.contains(&first.start_offset) {
+                        h.violate("C15", "size_cleanup_happens", "oldest_closed_segment_kept", format!("topic {sid}/{tid} is at or above its limit ({} >= {:?}) with deletion enabled, but the pass kept the oldest closed segment {}..={} of partition {p}", topic_sizes.get(&(sid, tid)).copied().unwrap_or(0), topic.max_size, first.start_offset, first.current_offset));
+                    } else {
+                        h.stats.probe("size_cleanup_removed_oldest_of_full_topic");
+                    }
+                }
+            }
+        }
         if deleted_by_size > 1 {
             h.violate("C15", "size_cleanup_only_oldest_closed", "more_than_one_segment", format!("size clean-up removed {deleted_by_size} segments of {sid}/{tid}/{p} in one pass"));
         }
